@@ -25,7 +25,7 @@ class Sys:
     pass
 
 
-def build(repo, it, st, use_ctl, obliq_on):
+def build(repo, it, st, use_ctl, obliq_on, sync=False):
     """symbolic object graph: orbit (PhysicsOrbit) with [host, world]; world (TidalWorld) with GlobalApproxTides"""
     mw = repo.by_path('TidalPy/structures/world_types/tidal.py'); mo = repo.by_path('TidalPy/structures/orbit/physics.py'); mt = repo.by_path('TidalPy/tides/methods/global_approx.py')
     mm = repo.by_path('TidalPy/tides/modes/mode_manipulation.py')
@@ -46,7 +46,7 @@ def build(repo, it, st, use_ctl, obliq_on):
         s.tides.attrs['_ctl_calc_method'] = FuncRef(mc, need_func(mc, 'linear_dt'))
         s.tides.attrs['_ctl_calc_input_getter'] = (lambda t=s.tides: (t.attrs['_fixed_dt'],))
     s.world = Obj(cls=Wc, name='world', attrs={
-        '_spin_frequency': st['spin'], '_spin_period': None, '_obliquity': st['obl'], '_tides': s.tides, '_is_spin_sync': False, '_tides_on': True, '_force_spin_sync': False, 'mass': st['M_world'], 'moi': st['C'],
+        '_spin_frequency': (None if sync else st['spin']), '_spin_period': None, '_obliquity': st['obl'], '_tides': s.tides, '_is_spin_sync': sync, '_tides_on': True, '_force_spin_sync': sync, 'mass': st['M_world'], 'moi': st['C'],
         'radius': st['R'], 'tidal_scale': st['tscale'], 'density_bulk': st['rho'], 'gravity_surface': st['g'], 'name': 'world', 'world_class': 'simple_tidal', '_time': None, '_spin_time_derivative': None,
         '_tidal_polar_torque': None, 'update_surface_temperature': noop, '__index__': 1})
     s.tides.attrs['world'] = s.world; s.tides.attrs['_world'] = s.world
@@ -145,6 +145,26 @@ MUTATORS = {
     'world.set_state(semi_major_axis)': ('a', lambda it, s, v: call(it, s.world, 'set_state', semi_major_axis=v)),
     'orbit.set_state(eccentricity)': ('e', lambda it, s, v: call(it, s.orbit, 'set_state', s.world, eccentricity=v)),
 }
+# the orbit given by its period or mean motion, the spin by its period: the final state is then the (a, spin) the repository's own conversions give for that value
+MUTATORS.update({
+    'orbit.set_orbital_period': ('P', lambda it, s, v: call(it, s.orbit, 'set_orbital_period', s.world, v)),
+    'orbit.set_orbital_frequency': ('n', lambda it, s, v: call(it, s.orbit, 'set_orbital_frequency', s.world, v)),
+    'world.set_state(orbital_period)': ('P', lambda it, s, v: call(it, s.world, 'set_state', orbital_period=v)),
+    'world.set_spin_period': ('Pspin', lambda it, s, v: call(it, s.world, 'set_spin_period', v)),
+    'world.set_state(spin_period)': ('Pspin', lambda it, s, v: call(it, s.world, 'set_state', spin_period=v)),
+})
+
+
+def derived_state(repo, key, v, st):
+    """(state key, value) a period / mean-motion mutator amounts to, through the repository's own conversion helpers"""
+    mc = repo.by_path('TidalPy/utilities/conversions/conversions.py')
+    itc = Interp(repo)
+    if key == 'Pspin':
+        return 'spin', itc.call(mc, need_func(mc, 'days2rads'), [v])
+    n_ = itc.call(mc, need_func(mc, 'days2rads'), [v]) if key == 'P' else v
+    return 'a', itc.call(mc, need_func(mc, 'orbital_motion2semi_a'), [n_, st['M_host'], st['M_world']])
+
+
 # batched changes: the value is stored with run_updates=False and takes effect with the next change that does update
 DEFERRED = {
     'world.set_fixed_q(deferred)': ('Q', lambda it, s, v: call(it, s.world, 'set_fixed_q', v, run_updates=False)),
@@ -183,13 +203,17 @@ def run(chk):
     mt = repo.by_path('TidalPy/tides/methods/global_approx.py')
     where_t = mt.rel()
     nseq = 0
-    for use_ctl in (False, True):
+    for use_ctl, sync in ((False, False), (True, False), (False, True)):
         for obliq_on in ((True,) if chk.tier == 'quick' else (True, False)):
-            model = ('CTL' if use_ctl else 'CPL') + (', obliquity tides on' if obliq_on else ', obliquity tides off')
+            model = ('CTL' if use_ctl else 'CPL') + (', obliquity tides on' if obliq_on else ', obliquity tides off') + (', spin forced synchronous' if sync else '')
             singles = [m_ for m_ in MUTATORS if m_ not in DEFERRED and m_ not in RESEND]
+            if sync:
+                # the spin follows the mean motion: it is not set from outside
+                singles = [m_ for m_ in singles if 'spin' not in m_]
             if chk.tier == 'quick':
                 pairs = [('orbit.set_eccentricity', 'world.set_fixed_q'), ('world.set_spin_frequency', 'orbit.set_eccentricity'), ('world.set_obliquity', 'orbit.set_semi_major_axis'),
-                         ('world.set_fixed_q', 'world.set_spin_frequency'), ('orbit.set_semi_major_axis', 'orbit.set_eccentricity')]
+                         ('world.set_fixed_q', 'world.set_spin_frequency'), ('orbit.set_semi_major_axis', 'orbit.set_eccentricity'), ('orbit.set_orbital_period', 'world.set_spin_period'),
+                         ('world.set_spin_period', 'orbit.set_orbital_frequency')]
             else:
                 base = ['orbit.set_eccentricity', 'world.set_obliquity', 'world.set_spin_frequency', 'orbit.set_semi_major_axis', 'world.set_fixed_q', 'world.set_fixed_dt']
                 pairs = [(a_, b_) for a_ in base for b_ in base if a_ != b_]
@@ -220,8 +244,12 @@ def run(chk):
                 cold += [('cold:spin', 'orbit.set_semi_major_axis', 'orbit.set_eccentricity', 'world.set_spin_frequency'), ('cold:spin', 'world.set_fixed_q', 'orbit.set_semi_major_axis', 'world.set_spin_frequency'),
                          ('cold:e', 'orbit.set_semi_major_axis', 'world.set_obliquity', 'orbit.set_state(eccentricity)'), ('cold:spin', 'world.set_obliquity', 'world.set_spin_frequency')]
             seqs = seqs + cold
+            if sync:
+                seqs = [q_ for q_ in seqs if not any('spin' in m_ for m_ in q_)]
             # second pass with numpy arrays as state values (mutable cells: `x = y` aliases, `x op= c` updates in place): the driver's own arrays must come back intact
             array_seqs = [(m,) for m in singles] + (pairs if chk.tier != 'quick' else pairs[:3])
+            if sync:
+                array_seqs = [q_ for q_ in array_seqs if not any('spin' in m_ for m_ in q_)]
             for arrays, seq in [(False, q_) for q_ in seqs] + [(True, q_) for q_ in array_seqs]:
                 nseq += 1
                 st0 = state_atoms('0')
@@ -242,7 +270,7 @@ def run(chk):
                     stb = {k_: (hand(f'initial {k_}', v_) if k_ in ('Q', 'dt', 'spin', 'obl', 'e', 'a') else v_) for k_, v_ in st0.items()}
                     if seq and seq[0].startswith('cold:'):
                         stb[{'spin': 'spin', 'e': 'e'}[seq[0][5:]]] = None          # not known yet when the world joins the orbit
-                    s = build(repo, it, stb, use_ctl, obliq_on)
+                    s = build(repo, it, stb, use_ctl, obliq_on, sync)
                     full_init(it, s)
                     call(it, s.world, 'orbit_spin_changed', orbital_freq_changed=True, spin_freq_changed=True, eccentricity_changed=True, obliquity_changed=True)
                     sent = {}
@@ -265,10 +293,14 @@ def run(chk):
                         if key == 'same':
                             fn_(it, s, None)
                             continue
-                        newv = X.atom(f'{key}{i + 1}', 'pos' if key in ('e', 'a', 'Q', 'dt') else 'real')
+                        newv = X.atom(f'{key}{i + 1}', 'pos' if key in ('e', 'a', 'Q', 'dt', 'P', 'n', 'Pspin') else 'real')
                         sent[mname] = newv
                         fn_(it, s, hand(f'step {i + 1} value', newv))
-                        final[key] = newv
+                        if key in ('P', 'n', 'Pspin'):
+                            k2_, v2_ = derived_state(repo, key, newv, st0)
+                            final[k2_] = v2_
+                        else:
+                            final[key] = newv
                     out_ = {q_: (X.lift(v_) if isinstance(v_, ArrBox) else v_) for q_, v_ in exposed(s).items()}
                     if arrays:
                         out_['__handed__'] = [(lab_, c_.v, v_) for lab_, c_, v_ in handed]
@@ -289,7 +321,7 @@ def run(chk):
                         final[key] = X.atom(f'{key}{i + 1}', 'pos' if key in ('e', 'a', 'Q', 'dt') else 'real')
                 try:
                     it2 = make_interp(repo)
-                    sf = build(repo, it2, final, use_ctl, obliq_on)
+                    sf = build(repo, it2, final, use_ctl, obliq_on, sync)
                     full_init(it2, sf)
                     call(it2, sf.world, 'orbit_spin_changed', orbital_freq_changed=True, spin_freq_changed=True, eccentricity_changed=True, obliquity_changed=True)
                     ref = exposed(sf)
